@@ -108,6 +108,9 @@ func runC19(idx int, rng *rand.Rand, tier string) []Case {
 	if idx%600 == 11 {
 		return c19DNSTTLCLI(idx, rng)
 	}
+	if idx%600 == 13 {
+		return c19ConnectToCLI(idx, rng)
+	}
 	switch idx % 6 {
 	case 0, 1:
 		return c19Rate(rng, idx)
